@@ -25,9 +25,12 @@ VARIABLES l,        \* next line
           cases,    \* claim index -> input [m, r, l, gi]
           seen,     \* {<<i, what>>} observations made for the current certificate
           open,     \* a certificate is being observed
-          viol
+          viol,     \* accumulated violations (at most Cap are kept in full, all are counted in nv)
+          nv
 
-vars == <<l, t, flow, k, cases, seen, open, viol>>
+vars == <<l, t, flow, k, cases, seen, open, viol, nv>>
+
+Cap == 100
 
 Codec   == {"enc", "dec_enc", "dec_gi", "reenc"}
 Common  == {"cert_struct", "cert_json", "cert_json_rt", "cert_json_map", "gi_hash", "le_bytes", "pp_hash", "fep_hash",
@@ -44,15 +47,18 @@ TripleOK(c, x) == x.m = CanonM(c) /\ x.r = CanonR(c) /\ x.l = CanonL(c)
 
 Init ==
   /\ TLCSet(1, 0)
-  /\ l = 1 /\ t = 0 /\ flow = "none" /\ k = 0 /\ cases = <<>> /\ seen = {} /\ open = FALSE /\ viol = <<>>
+  /\ l = 1 /\ t = 0 /\ flow = "none" /\ k = 0 /\ cases = <<>> /\ seen = {} /\ open = FALSE /\ viol = <<>> /\ nv = 0
 
 V(kind, info) == [t |-> t, l |-> l, inv |-> kind, info |-> info]
 Ev(name) == l <= Len(Trace) /\ Trace[l].ev = name
 Known(i) == i \in DOMAIN cases
+(* every action reports the (possibly empty) sequence of predicates that failed on its line *)
+Report(new) == /\ viol' = IF Len(viol) >= Cap THEN viol ELSE viol \o new
+               /\ nv' = nv + Len(new)
 
 EvCert ==
   /\ Ev("cert")
-  /\ viol' = IF open THEN Append(viol, V("Complete", [what |-> "certificate not finished"])) ELSE viol
+  /\ Report(IF open THEN <<V("Complete", [what |-> "certificate not finished"])>> ELSE <<>>)
   /\ t' = t + 1 /\ flow' = Trace[l].flow /\ k' = Trace[l].k /\ cases' = <<>> /\ seen' = {} /\ open' = TRUE
   /\ l' = l + 1
 
@@ -60,7 +66,7 @@ EvCase ==
   /\ Ev("case")
   /\ LET e == Trace[l] IN
      /\ cases' = IF e.i = Len(cases) + 1 THEN Append(cases, [m |-> e.m, r |-> e.r, l |-> e.l, gi |-> e.gi]) ELSE cases
-     /\ viol' = IF e.i = Len(cases) + 1 THEN viol ELSE Append(viol, V("Complete", [what |-> "claim numbering", i |-> e.i]))
+     /\ Report(IF e.i = Len(cases) + 1 THEN <<>> ELSE <<V("Complete", [what |-> "claim numbering", i |-> e.i])>>)
   /\ l' = l + 1 /\ UNCHANGED <<t, flow, k, seen, open>>
 
 (* a composed value: layout bits from the triple, and equality with the on-chain value *)
@@ -68,67 +74,69 @@ ValueViol(c, v, bits, val, info) ==
      (IF v.w # LayoutW(c) THEN <<V(bits, info)>> ELSE <<>>)
   \o (IF v.s # c.gi THEN <<V(val, info)>> ELSE <<>>)
 
+Extra(e, at) == /\ Report(<<V("ExtraClaim", [i |-> e.i, at |-> at])>>) /\ UNCHANGED seen
+
 EvEnc ==
   /\ Ev("enc")
   /\ LET e == Trace[l] IN
-     IF ~Known(e.i) THEN viol' = Append(viol, V("ExtraClaim", [i |-> e.i, at |-> "enc"])) /\ UNCHANGED seen
+     IF ~Known(e.i) THEN Extra(e, "enc")
      ELSE LET c == cases[e.i] IN
-          /\ viol' = viol \o ValueViol(c, e.v, "LayoutBits", "LayoutValue", [i |-> e.i, input |-> c, got |-> e.v])
+          /\ Report(ValueViol(c, e.v, "LayoutBits", "LayoutValue", [i |-> e.i, input |-> c, got |-> e.v]))
           /\ seen' = seen \cup {<<e.i, "enc">>}
   /\ l' = l + 1 /\ UNCHANGED <<t, flow, k, cases, open>>
 
 EvDec ==
   /\ Ev("dec")
   /\ LET e == Trace[l] IN
-     IF ~Known(e.i) THEN viol' = Append(viol, V("ExtraClaim", [i |-> e.i, at |-> "dec"])) /\ UNCHANGED seen
+     IF ~Known(e.i) THEN Extra(e, "dec")
      ELSE LET c == cases[e.i]
               inv == IF e.of = "enc" THEN "RoundTrip" ELSE "CanonDecode" IN
-          /\ viol' = IF TripleOK(c, e.t) /\ ~e.err THEN viol
-                     ELSE Append(viol, V(inv, [i |-> e.i, input |-> c, got |-> e.t, err |-> e.err]))
+          /\ Report(IF TripleOK(c, e.t) /\ ~e.err THEN <<>>
+                    ELSE <<V(inv, [i |-> e.i, input |-> c, got |-> e.t, err |-> e.err])>>)
           /\ seen' = seen \cup {<<e.i, IF e.of = "enc" THEN "dec_enc" ELSE "dec_gi">>}
   /\ l' = l + 1 /\ UNCHANGED <<t, flow, k, cases, open>>
 
 EvReenc ==
   /\ Ev("reenc")
   /\ LET e == Trace[l] IN
-     IF ~Known(e.i) THEN viol' = Append(viol, V("ExtraClaim", [i |-> e.i, at |-> "reenc"])) /\ UNCHANGED seen
+     IF ~Known(e.i) THEN Extra(e, "reenc")
      ELSE LET c == cases[e.i] IN
-          /\ viol' = viol \o ValueViol(c, e.v, "CanonRoundTrip", "CanonRoundTrip", [i |-> e.i, input |-> c, got |-> e.v])
+          /\ Report(ValueViol(c, e.v, "CanonRoundTrip", "CanonRoundTrip", [i |-> e.i, input |-> c, got |-> e.v]))
           /\ seen' = seen \cup {<<e.i, "reenc">>}
   /\ l' = l + 1 /\ UNCHANGED <<t, flow, k, cases, open>>
 
 EvCarry ==
   /\ Ev("carry")
   /\ LET e == Trace[l] IN
-     IF ~Known(e.i) THEN viol' = Append(viol, V("ExtraClaim", [i |-> e.i, at |-> e.at])) /\ UNCHANGED seen
+     IF ~Known(e.i) THEN Extra(e, e.at)
      ELSE LET c == cases[e.i] IN
-          /\ viol' = IF e.kind = "t"
-                     THEN IF TripleOK(c, e.t) THEN viol
-                          ELSE Append(viol, V("CarriesTriple", [i |-> e.i, at |-> e.at, input |-> c, got |-> e.t]))
-                     ELSE viol \o ValueViol(c, e.v, "CarriesValue", "CarriesValue", [i |-> e.i, at |-> e.at, input |-> c, got |-> e.v])
-                               \o (IF e.v.n # 32 THEN <<V("FixedWidth", [i |-> e.i, at |-> e.at, n |-> e.v.n])>> ELSE <<>>)
+          /\ Report(IF e.kind = "t"
+                    THEN IF TripleOK(c, e.t) THEN <<>>
+                         ELSE <<V("CarriesTriple", [i |-> e.i, at |-> e.at, input |-> c, got |-> e.t])>>
+                    ELSE ValueViol(c, e.v, "CarriesValue", "CarriesValue", [i |-> e.i, at |-> e.at, input |-> c, got |-> e.v])
+                         \o (IF e.v.n # 32 THEN <<V("FixedWidth", [i |-> e.i, at |-> e.at, n |-> e.v.n])>> ELSE <<>>))
           /\ seen' = seen \cup {<<e.i, e.at>>}
   /\ l' = l + 1 /\ UNCHANGED <<t, flow, k, cases, open>>
 
 EvPanic ==
   /\ Ev("panic")
-  /\ viol' = Append(viol, V("Panicked", [what |-> Trace[l].what]))
+  /\ Report(<<V("Panicked", [what |-> Trace[l].what])>>)
   /\ l' = l + 1 /\ UNCHANGED <<t, flow, k, cases, seen, open>>
 
 EvEnd ==
   /\ Ev("end")
   /\ LET want    == (1..k) \X Required(flow)
          missing == want \ seen
-     IN viol' = IF Len(cases) = k /\ missing = {} THEN viol
-                ELSE Append(viol, V("Complete", [claims |-> Len(cases), k |-> k, missing |-> missing]))
+     IN Report(IF Len(cases) = k /\ missing = {} THEN <<>>
+               ELSE <<V("Complete", [claims |-> Len(cases), k |-> k, missing |-> missing])>>)
   /\ open' = FALSE
   /\ l' = l + 1 /\ UNCHANGED <<t, flow, k, cases, seen>>
 
 Finish ==
   /\ l = Len(Trace) + 1
   /\ PrintT(<<"VIOL", ToJson(IF open THEN Append(viol, V("Complete", [what |-> "last certificate not finished"])) ELSE viol)>>)
-  /\ PrintT(<<"DONE", ToJson([lines |-> Len(Trace), traces |-> t])>>)
-  /\ l' = l + 1 /\ UNCHANGED <<t, flow, k, cases, seen, open, viol>>
+  /\ PrintT(<<"DONE", ToJson([lines |-> Len(Trace), traces |-> t, violations |-> nv])>>)
+  /\ l' = l + 1 /\ UNCHANGED <<t, flow, k, cases, seen, open, viol, nv>>
 
 Next == EvCert \/ EvCase \/ EvEnc \/ EvDec \/ EvReenc \/ EvCarry \/ EvPanic \/ EvEnd \/ Finish
 Spec == Init /\ [][Next]_vars
